@@ -190,7 +190,6 @@ func (s *Swarm) onPeerOffline(name mesh.PeerName) {
 		dead := &deadPeer{name: name}
 		s.state.SubscriptionsOf(name, func(ev *event.Subscription) {
 			s.OnUnsubscribe(dead, ev) // Notify locally that the subscription is gone
-			s.state.Del(ev)           // Remove the state from ourselves
 		})
 
 		// If we're a fallback server, issue last will events
